@@ -42,7 +42,9 @@ def cases(draw, tier):
     return {"table": spec, "compress": draw(st.booleans()), "writer": writer,
             "generated_by": draw(gen._H5TEXT1),
             "date": c01.date_to_json(draw(c01.DATES)),
-            "sub": writer == "convert" and draw(st.sampled_from(SUB))}
+            "sub": writer == "convert" and draw(st.sampled_from(SUB)),
+            "date_mode": draw(st.sampled_from(["explicit", "explicit",
+                                               "omitted", "attr"]))}
 
 
 def strategy(tier):
@@ -109,7 +111,16 @@ def check(case, rec):
             src = observe.snapshot(t)
             gen_by = None
         else:
-            c01.write(t, path, dict(case, writer=writer))
+            mode = case.get("date_mode", "explicit")
+            rec.cls("date:" + mode)
+            if mode == "explicit":
+                c01.write(t, path, dict(case, writer=writer))
+            else:
+                if mode == "attr":
+                    t.create_date = c01.date_from_json(case["date"])
+                    src["__attr_date__"] = True
+                with h5py.File(path, "w") as f:
+                    t.to_hdf5(f, gen_by, compress=case["compress"])
         with h5py.File(path, "r") as f:
             dec = h5spec.decode(f)
 
@@ -166,13 +177,17 @@ def check(case, rec):
             bad("type", "%r != %r" % (at["type"], src["type"]))
         if at["generated-by"] != gen_by:
             bad("generated-by", "%r != %r" % (at["generated-by"], gen_by))
-        if at["creation-date"] != c01.date_from_json(
-                case["date"]).isoformat():
+        if case.get("date_mode", "explicit") == "explicit" and \
+                at["creation-date"] != c01.date_from_json(
+                    case["date"]).isoformat():
             bad("creation-date", repr(at["creation-date"]))
     try:
         datetime.fromisoformat(at["creation-date"])
     except Exception:
         bad("creation-date", "not ISO 8601: %r" % at["creation-date"])
+    if "T" not in at["creation-date"]:
+        bad("creation-date", "not ISO 8601 (no 'T' between date and time): "
+            "%r" % at["creation-date"])
     if at["format-url"] != "http://biom-format.org":
         bad("format-url", repr(at["format-url"]))
     noncanon = lay.get("sorted") is False or lay.get("format") != "csr"
